@@ -198,7 +198,7 @@ impl Prop for C01 {
             "float systems are restricted to reference condition number <= 1e10 (before diagonal scaling)".into(),
         ]
     }
-    fn stream_len(&self) -> usize {
+    fn stream_len(&self, _tier: Tier) -> usize {
         400
     }
     fn random_cases(&self, tier: Tier) -> usize {
